@@ -21,7 +21,7 @@ SPEC = {
         "Sema.C14.C14_converges_pinned_false", "Sema.C14.C14_pinned_stuck",
         "Sema.C14.C14_empty_file_never_moves",
         "Sema.C14.C14_epochs_no_loss", "Sema.C14.C14_epochs_remove_only_after_confirm",
-        "Sema.C14.C14_epochs_converges",
+        "Sema.C14.C14_epochs_converges", "Sema.C14.C14_epochs_safe_change",
     ],
     "trusted_base": [
         "OS file semantics: a file is a byte list; O_APPEND|O_CREATE appends / creates, O_TRUNC empties; os.File.Read returns (n>0, nil) until the end and then (0, io.EOF); RemoveAll removes the shard directory; writes of a killed process that returned are on disk",
